@@ -1,6 +1,7 @@
 import Ecal.Model.Bridge
 import Ecal.Lemmas.Bridge
 import Ecal.Gen.C19
+import Ecal.Model.Reentry
 /-!
 # C19 — the Go function bridge is total and converts numbers faithfully
 
@@ -392,5 +393,36 @@ example : runPlugin false shape (fun _ _ => 0) (fun _ => .panic) [] = .escaped :
 example : run shape (fun _ _ => 0)
     (.fn ⟨[.str, .slice .iface], true, [.str, .int .int]⟩ (fun l => .ret [l.headD .nil, .int .int (l.length - 1)]))
     [.str "a", .bool true] = .done (.many [.str "a", .f64 (.fin 1 0)]) none := by decide
+
+/-! ## The interpreter side: every activation of a call site owns its arguments
+
+`Ecal.Reentry.eval` is the reference semantics the correspondence run holds `rt_identifier.go`
+(`resolveFunction`) against: programs whose bridged call sites are re-entered through their own
+argument expressions, one AST evaluated repeatedly and from several goroutines. -/
+
+/-- **Arguments arrive.** Whatever the evaluation of the argument expressions does — recursion that
+    re-enters this very call site any number of times, other bridged calls, anything they log — the
+    bridged Go function of this activation is run on the values `vs` of ITS OWN argument expressions,
+    and what it receives is appended to the log after everything its arguments caused. -/
+theorem bridged_call_receives_own_arguments (fns : List Reentry.FnDef) (fuel : Nat)
+    (env : List (String × Int)) (f : String) (args : Reentry.Args) (log log' : Reentry.Log)
+    (vs : List Int) (r : Int) (recv : List Val)
+    (ha : Reentry.evalArgs fns fuel env args log = some (vs, log'))
+    (hb : Reentry.bridged f vs = some (r, recv)) :
+    Reentry.eval fns (fuel + 1) env (.callB f args) log = some (r, log' ++ [recv]) := by
+  simp [Reentry.eval, ha, hb]
+
+/-- What the Go function receives for in-range integers is exactly those integers, in the
+    parameter's kind: `radd3(a int, b int64, c float64)` called with the values 2, 3, 4. -/
+example : Reentry.bridged "radd3" [2, 3, 4] =
+    some (9, [.int .int 2, .int .int64 3, .f64 (.fin 4 0)]) := by decide
+
+/-- `sum(n) := if n == 0 then 0 else radd(n, sum(n-1))`: the call site `radd(n, sum(n-1))` is
+    re-entered twice while its first argument is already evaluated; each activation keeps its own. -/
+example : Reentry.eval
+    [⟨"sum", ["n"], .num 0, .callB "radd" (.cons (.var "n") (.cons (.callU "sum" (.cons (.sub (.var "n") (.num 1)) .nil)) .nil))⟩]
+    40 [] (.callU "sum" (.cons (.num 3) .nil)) [] =
+    some (6, [[.f64 (.fin 1 0), .f64 (.fin 0 0)], [.f64 (.fin 2 0), .f64 (.fin 1 0)], [.f64 (.fin 3 0), .f64 (.fin 3 0)]]) := by
+  decide
 
 end Ecal.Props.C19
